@@ -30,6 +30,29 @@ pub struct PropPlan {
 }
 
 pub static PLANS: &[PropPlan] = &[PropPlan {
+    prop: "C05",
+    level: "fault_enumeration",
+    sims: &[SimPlan { sim: "io", quick_runs: 400_000, thorough_runs: 100_000 }],
+    rule: "each run draws a typed value tree (all serde data-model entry points: every integer width, f32/f64 incl. non-finite, char, strings placed 0..40 bytes before a PROT_NONE page, bytes, options, unit/newtype/tuple/struct variants, seqs/maps with and without length hints, every map-key kind incl. the ones that must be rejected, collect_str, embedded Value/RawNumber/LazyValue/OwnedLazyValue, a Serialize impl that fails), compact or pretty, a writer stack and a fault plan (permanent error / Ok(0) after n bytes, error at call c, reserve_with / flush_len error, plus transient short writes and EINTR). Quick: one drawn fault point per run. Thorough: for every base run with a fallible sink, EVERY byte offset 0..=len and every call index is enumerated for every fault kind (exhaustive per value, not globally). Non-trivial = an injected fault fired; distinct = distinct hash of (value, mode, stack, plan, outcome)",
+    assumptions: &[
+        "float tokens are compared by value (the spelling of a float is not specified by the property): the token must match the JSON number grammar and parse back to the same bits",
+        "objects built by mutation (hash-ordered) are not embedded; parsed Values keep document order",
+        "std io::BufWriter, bytes::BytesMut, itoa and ryu are trusted; the reference escaper / re-indenter is the oracle and is self-tested at start-up",
+        "bytes still inside an io::BufWriter when to_writer returns are flushed by the harness; a fault hit only by that flush is outside the call",
+    ],
+    real_vs_stub: "real: sonic-rs serializer, formatters, SIMD escaper, WriteExt impls for Vec/BytesMut/BufferedWriter/io::BufWriter/&mut/Box, Value/LazyValue/OwnedLazyValue/RawNumber Serialize impls; simulated: the sink (FaultySink), a user WriteExt whose reserved window ends at a PROT_NONE page, source strings ending 0..40 bytes before a PROT_NONE page, heap ledger; absent: clock, network",
+}, PropPlan {
+    prop: "C16",
+    level: "exploration",
+    sims: &[SimPlan { sim: "arena", quick_runs: 150_000, thorough_runs: 2_500_000 }],
+    rule: "each run draws 1-3 simulated threads (real OS threads, real thread-local node buffer each) and, per thread, 2-40 operations over a bag of live (Value, model) pairs: parse by 7 routes (from_str, from_slice, Deserializer over Bytes/FastStr, value inside a struct, use_rawnumber, element of Vec<Value>), three values through one deserializer, streams (open / next / drop before or after their values), clone root / subtree, take a child out, insert a value into another document, mutate, read-and-compare, send to another thread, receive, drop; the scheduler may switch before every arena reference-count operation and between operations; final drops happen in a drawn order. Non-trivial = a context switch, cross-thread send, promotion or mutation happened; distinct = distinct hash of the rendered trace",
+    assumptions: &[
+        "std::sync::Arc and bumpalo are trusted; the baton serialises execution, so weak-memory races inside Arc use are out of reach (sonic-rs adds no atomics of its own on this path)",
+        "Miri cannot execute the arena DOM (pointer provenance is lost in visit_root), so this property has no abstract-machine engine; memory errors are observed through the simulated heap: ledger (double/invalid/wrong-layout free), 0xDE poison + quarantine (use after free reads poison, write after free detected), tail canaries, leak check, and the live-arena counter fed by hook events",
+        "documents are small (<= 20 nodes) except the rare 400 KB document that drives the node buffer's heap fallback",
+    ],
+    real_vs_stub: "real: sonic-rs parser, DOM, arena ref-counting, thread-local node buffer, serde glue, std Arc, bumpalo; simulated: thread scheduling (baton over real OS threads), mailboxes between threads, heap bookkeeping; absent: clock, network, disk",
+}, PropPlan {
     prop: "C18",
     level: "exploration",
     sims: &[SimPlan { sim: "cache", quick_runs: 250_000, thorough_runs: 3_000_000 }],
@@ -75,7 +98,7 @@ struct Group {
     harness_errors: Vec<String>,
 }
 
-fn spawn_workers(exe: &str, config: &str, sim: &str, seed: u64, total: u64, nworkers: u64, work: &str, max_secs: f64) -> Group {
+fn spawn_workers(exe: &str, config: &str, sim: &str, seed: u64, total: u64, nworkers: u64, work: &str, max_secs: f64, enumerate: bool) -> Group {
     let per = (total + nworkers - 1) / nworkers;
     let mut children = Vec::new();
     for w in 0..nworkers {
@@ -88,6 +111,7 @@ fn spawn_workers(exe: &str, config: &str, sim: &str, seed: u64, total: u64, nwor
         let _ = std::fs::remove_file(&out);
         let c = Command::new(exe)
             .args(["worker", "--sim", sim, "--seed", &seed.to_string(), "--from", &from.to_string(), "--count", &count.to_string(), "--out", &out, "--max-secs", &max_secs.to_string()])
+            .args(if enumerate { vec!["--enumerate"] } else { vec![] })
             .stdin(Stdio::null())
             .stdout(Stdio::piped())
             .stderr(Stdio::piped())
@@ -255,12 +279,13 @@ pub fn main(args: &[String]) -> i32 {
     for sp in plan.sims {
         let runs = ((if tier == "thorough" { sp.thorough_runs } else { sp.quick_runs }) as f64 * scale).max(16.0) as u64;
         let max_secs = if tier == "thorough" { 3000.0 } else { 240.0 };
+        let enumerate = tier == "thorough" && crate::find_sim(sp.sim).map(|s| s.enumerate.is_some()).unwrap_or(false);
         // both configurations at the same time: 2 x nworkers processes
         let handles: Vec<_> = bins
             .iter()
             .map(|(cfg, exe)| {
                 let (cfg, exe, sim, work) = (cfg.clone(), exe.clone(), sp.sim.to_string(), work.clone());
-                std::thread::spawn(move || spawn_workers(&exe, &cfg, &sim, seed, runs, nworkers, &work, max_secs))
+                std::thread::spawn(move || spawn_workers(&exe, &cfg, &sim, seed, runs, nworkers, &work, max_secs, enumerate))
             })
             .collect();
         for h in handles {
@@ -280,6 +305,8 @@ pub fn main(args: &[String]) -> i32 {
     let mut harness_errors: Vec<String> = Vec::new();
     let mut found: Vec<(usize, FoundViolation)> = Vec::new(); // group index, violation
     let mut worker_wall = 0f64;
+    let mut enumerated_bases = 0u64;
+    let mut enumerated_variants = 0u64;
     for (gi, g) in groups.iter().enumerate() {
         let mut gdone = 0;
         for r in &g.results {
@@ -288,6 +315,8 @@ pub fn main(args: &[String]) -> i32 {
             nontrivial_runs += r.nontrivial_runs;
             choices_drawn += r.choices_drawn;
             worker_wall += r.wall_s;
+            enumerated_bases += r.enumerated_bases;
+            enumerated_variants += r.enumerated_variants;
             for (k, v) in &r.counters {
                 *counters.entry(k.clone()).or_default() += v;
             }
@@ -479,6 +508,7 @@ pub fn main(args: &[String]) -> i32 {
             "per_sim_config": per_group,
             "real_vs_stub": plan.real_vs_stub,
             "worker_cpu_s": worker_wall,
+            "fault_enumeration": {"base_runs_enumerated": enumerated_bases, "fault_points_executed": enumerated_variants, "note": "thorough tier only: every byte offset / call index for every fault kind, per base run with a fallible sink"},
             "violations_seen_before_dedup": violations_total,
             "engine": "dsim (choice-stream driven simulator; baton scheduler over real OS threads; simulated heap)",
             "second_engine_miri": miri_json,
